@@ -1,36 +1,36 @@
 import json, os, shutil, glob
-W='s'
+W='t'
 rows = {
- 'C01': ("length prefix of the TABLE_MAP column-metadata block read as one byte",
-         "a table whose metadata block is longer than 250 bytes (>= 126 VARCHAR/CHAR/DECIMAL/BIT columns, ...)",
-         "C01: count, stream-result - **missed at first** (tables of 250..600 columns were only generated in the thorough tier of C01 and in C15; they are now part of C01 quick as well)"),
- 'C02': ("IsXID() also true for XA_PREPARE events with one_phase = 1",
-         "an event of type 38 with a body of at least 13 bytes whose first byte is 1",
-         "C02: early-delivery, grouping (through the ignorable events of types 36..38 with random bodies)"),
- 'C03': ("binlog format kept in the Streamer across Stream calls (opening ROTATE of a later call stripped by the stale checksum setting)",
-         "the same Streamer used again with another checksum setting in force",
-         "C03: resume-suffix (through the same-Streamer rewind of wave l and the connection-level checksum of wave q)"),
- 'C04': ("reader drops 'heartbeats' by testing byte 4 of the raw packet (the top byte of the timestamp); same line as C02-p",
-         "an event whose timestamp has top byte 0x1b",
-         "C04: lost, reordered (through the arbitrary timestamps of wave p)"),
- 'C05': ("no dump request and no reader when the context is already done on entry of startDumpFromBinlogPosition; the error channel is never closed",
-         "cancellation that lands during the checksum SET round trip",
-         "C05: error-blocks, goroutine-leak:caller"),
- 'C06': ("a QUERY decode error is ignored when the partial result has a non-empty statement",
-         "a query event whose status-variable block ends inside a bounds-checked variable",
-         "C06: stream-nil-on-failure (through the undecodable-event variants of wave j)"),
- 'C07': ("process-wide registry of running dumps' server ids: a second Streamer with the same id is moved to id+1",
-         "two Streamers with the same server id in one process whose Stream calls overlap",
-         "C07: server-id - **missed at first** (a sixth of the C07 runs now have a bystander: a second Streamer with the same server id that streams from a master of its own for the whole run)"),
- 'C08': ("statement text of 1 KiB or more is a zero-copy string over the per-event buffer, and query/XID buffers go through a free list",
-         "a delivered statement of at least 1 KiB that the consumer keeps, two further packets",
-         "C08: mutated-after-delivery - **missed at first**, two gaps: statements were never longer than ~100 bytes (one in twelve now carries 1..6 KiB of text), and the delivery-time snapshot kept Go strings by reference (it now clones every string)"),
- 'C15': ("the 'same table?' test of fix 5b1215f made case-insensitive",
-         "a table id taken over by a table whose name differs from the old one in letter case only",
-         "C15: attribution, wrong-table - **missed at first** (a third of the id takeovers are now by a case variant of the old name)"),
- 'C17': ("reader logs NextPosition() of the event it is holding once the parser has not taken it for 30 s",
-         "a handler that takes 30 s or more while the reader holds a malformed packet shorter than 17 bytes",
-         "C17: panic - **missed at first** (an eighth of the attempts now have one handler call that takes 35 s, 65 s or 10 min on the fake clock)"),
+ 'C01': ("rows events with table id 0x00ffffff and STMT_END_F dropped as 'dummy' events before the table-map lookup (same idea as C15-i, judged on fidelity)",
+         "a table announced with id exactly 16777215",
+         "C01: count, event-count, order (through the boundary table ids of wave i)"),
+ 'C02': ("same dummy-rows filter, judged on grouping",
+         "a table with id 16777215 inside a transaction or autocommitted",
+         "C02: grouping"),
+ 'C03': ("status-variable block length of a QUERY event read as one byte (same slip as C02-k, judged on labels)",
+         "a BEGIN / COMMIT query event with 256 or more bytes of status variables",
+         "C03: content:count, end-label, resume-suffix, crash-restart-exactly-once"),
+ 'C04': ("a second ROTATE before the next commit is skipped (flag cleared only by a commit)",
+         "a binlog file that is entered and left again without an accepted transaction in it, a transaction accepted in the next file, a retry",
+         "C04: reordered - **missed at first** (the C04 family had at most two files; it now has three, so an empty middle file occurs)"),
+ 'C05': ("a nested BEGIN is reported through the attempt's one-slot error channel, which the reader needs for its final post",
+         "a BEGIN while another transaction is open (master crashed mid-transaction), then any end of the stream",
+         "C05: goroutine-leak:reader, stream-hang"),
+ 'C06': ("the mapper's error is only looked at when it returned no table",
+         "a failing lookup that hands back a well-formed table together with its error",
+         "C06: stream-nil-on-failure - **missed at first** (a third of the failing lookups now return the table description together with the error)"),
+ 'C07': ("ROTATE file names rebuilt with bytes.Map: bytes that are not valid UTF-8 become U+FFFD",
+         "a binlog base name that is not valid UTF-8 (latin1), a ROTATE, another attempt",
+         "C07: file"),
+ 'C08': ("rows-event buffers of tables with only by-value columns recycled; the 'all by-value' flag is not refreshed when the id is re-announced with other column types",
+         "a table first announced with by-value columns only, re-announced under the same id and name with a by-reference type, a retained value, a later packet",
+         "C08: mutated-after-delivery - **missed at first** (re-announcements with other column types were not part of the C08 family; half of its histories now have them)"),
+ 'C15': ("a DDL query evicts every cached table whose name appears as a word in its text",
+         "DDL text that contains the name of a cached table, then rows for that id without a new table map",
+         "C15: mapper-call"),
+ 'C17': ("validity gate rejects events of 2^24 bytes or more",
+         "a well-formed event of at least 16 MiB (two wire fragments)",
+         "C17: rejected-well-formed (through the exact-size unit around 2^24-1 and the rule of wave j)"),
 }
 for p,(chg,needs,caught) in rows.items():
     src=f'/tmp/wt-{p}-{W}/_seeded'
